@@ -256,6 +256,9 @@ pub enum Op {
     CloneTo { from: usize, to: usize },
     /// from_slice(point).compose::<false>(slot); infeasible_elimination(); remove_axes(kept axes)
     Slice { slot: usize, point: Vec<Option<f64>> },
+    /// remove_axes(keep) on its own: drops input axes whatever their coefficients (the represented
+    /// function changes as if the dropped coordinates were fixed to 0); caches must not go stale
+    RemoveAxes { slot: usize, keep: Vec<bool> },
     /// afftree_from_layers(dim, layers, precondition) stored into `slot`
     Pipeline { slot: usize, dim: usize, layers: Vec<LayerLit>, pre: Option<Ctor> },
 }
@@ -275,6 +278,7 @@ impl Op {
             }
             Op::CloneTo { .. } => "clone".into(),
             Op::Slice { .. } => "slice_eliminate_remove_axes".into(),
+            Op::RemoveAxes { .. } => "remove_axes".into(),
             Op::Pipeline { .. } => "afftree_from_layers".into(),
         }
     }
